@@ -341,7 +341,8 @@ def run(ctx):
             break
         cfg = {"fallback": rng.random() < 0.6, "fb_ssr": rng.random() < 0.6}
         free_p = list(segs)
-        free_t = [None, "a", "b"]
+        free_t = [None, "a", "b", ""]      # "" is a test id like any other; None is the rule for id-less events
+        used_p = []
         rng.shuffle(free_p)
         rng.shuffle(free_t)
         ops, k = [], 0
@@ -359,12 +360,13 @@ def run(ctx):
             elif r < 0.32 and (free_p or free_t):
                 k += 1
                 if free_p and (rng.random() < 0.6 or not free_t):
-                    ops.append(["rule", "s%d" % k, "prefix", free_p.pop(), rng.random() < 0.6,
+                    used_p.append(free_p.pop())
+                    ops.append(["rule", "s%d" % k, "prefix", used_p[-1], rng.random() < 0.6,
                                 rng.random() < 0.5])
                 else:
                     ops.append(["rule", "s%d" % k, "test_id", free_t.pop(), False, rng.random() < 0.5])
             else:
-                e = {"id": rng.choice([None, "a", "b"]),
+                e = {"id": rng.choice([None, "a", "b", ""]),
                      "st": rng.choice([None, "inprogress", "success", "fail"])}
                 if rng.random() < 0.75:
                     e["rc"] = "/".join(rng.choice(segs) for _ in range(rng.randint(1, 4)))
